@@ -210,6 +210,30 @@ fn scripts() -> Vec<(&'static str, Vec<Unit>)> {
             ],
         ),
         (
+            // an asynchronous command of a shell without job control does not read the script, even
+            // when it cannot be given /dev/null as its standard input
+            "async-reader-without-dev-null",
+            vec![
+                u(&["p a"], &["a:0"]),
+                u(&["cat &"], &[]),
+                u(&["wait"], &[]),
+                u(&["p b"], &["b:0"]),
+                u(&["{ read x; args \"[$x]\"; } & wait"], &["args[[]]"]),
+                u(&["p c"], &["c:0"]),
+            ],
+        ),
+        (
+            "async-reader",
+            vec![
+                u(&["p a"], &["a:0"]),
+                u(&["cat &"], &[]),
+                u(&["wait"], &[]),
+                u(&["p b"], &["b:0"]),
+                u(&["{ read x; args \"[$x]\"; } & wait"], &["args[[]]"]),
+                u(&["p c"], &["c:0"]),
+            ],
+        ),
+        (
             "exit-stops-reading",
             vec![
                 u(&["p a"], &["a:0"]),
@@ -321,6 +345,7 @@ fn setup_for(c: &Case, feed: Feed, chunks: Option<Vec<Vec<u8>>>) -> Setup {
     s.cwd = Some("/".into());
     // a child that stops itself is continued from outside once everything else is blocked
     s.auto_continue = c.text.contains("stopself");
+    s.no_dev_null = c.name.contains("without-dev-null");
     s
 }
 
